@@ -42,7 +42,14 @@ def run(ctx):
     gdef = C.assigns_to(f.node, g) if g != "self.dg" else []
     own = bool(gdef) and U(gdef[0].value) in ("self.dg.copy()", "copy.deepcopy(self.dg)", "nx.DiGraph(self.dg)", "deepcopy(self.dg)")
     sink_edges = [c for c in C.calls_to(f.node, "add_edge") if U(c.func.value) == g]
-    if g == "self.dg" or not sink_edges:
+    built_elsewhere = g != "self.dg" and not own and (not gdef or isinstance(gdef[0].value, ast.Call))
+    other_edge_api = [c for c in ast.walk(f.node) if isinstance(c, ast.Call) and isinstance(c.func, ast.Attribute)
+                      and c.func.attr in ("add_weighted_edges_from", "add_edges_from", "update") and U(c.func.value) == g]
+    if not sink_edges and (built_elsewhere or other_edge_api):
+        ctx.unknown("R3", "terminal latency is represented in the searched graph", f.where(lp),
+                    "the searched graph `%s` is built by `%s`: how the terminal edges are added is not followed" % (
+                        g, U(other_edge_api[0])[:80] if other_edge_api else U(gdef[0].value)[:80] if gdef else "?"))
+    elif g == "self.dg" or not sink_edges:
         # no terminal edges: the terminal latency must not be reported either
         extra = [n for n in ast.walk(f.node) if isinstance(n, (ast.Assign, ast.AugAssign)) and any(
             isinstance(t, ast.Attribute) and t.attr == "latency_cp" for t in (n.targets if isinstance(n, ast.Assign) else [n.target]))
@@ -121,7 +128,19 @@ def run(ctx):
                   "`%s` accumulates into state that lives on the instruction forms, and %s never resets it: every further call "
                   "(the report calls it more than once per analysis) adds the path's weights again, so the per-line CP values no "
                   "longer add up to the reported total" % (U(accs[0]), f.qname), f.qname, "reset")
-    pair_loops = [l for l in ast.walk(f.node) if isinstance(l, ast.For) and C.is_call_to(l.iter, "pairwise") and U(l.iter.args[0]) == path]
+    def is_pair_iter(it):
+        def res(e):
+            """a local with one definition that is a slice of the path stands for that slice"""
+            if isinstance(e, ast.Name) and e.id != path:
+                ds = [a for a in C.assigns_to(f.node, e.id) if isinstance(a, ast.Assign)]
+                if len(ds) == 1 and U(ds[0].value) in (path + "[:-1]", path + "[1:]"):
+                    return U(ds[0].value)
+            return U(e)
+        if C.is_call_to(it, "pairwise") and it.args and res(it.args[0]) == path:
+            return True
+        b = pm.match("zip(M_a, M_b)", it)
+        return b is not None and res(b["M_a"]) in (path, path + "[:-1]") and res(b["M_b"]) == path + "[1:]"
+    pair_loops = [l for l in ast.walk(f.node) if isinstance(l, ast.For) and is_pair_iter(l.iter)]
     ctx.check(len(pair_loops) == 1, "R3", "per-line values are assigned along consecutive nodes of the whole path", f.where(),
               "no loop over pairwise(%s): %s" % (path, [U(l.iter) for l in ast.walk(f.node) if isinstance(l, ast.For)]), f.qname, "pairwise loop")
     # the per-line values live on the instruction forms, which other analyses of the same parsed code share and rewrite
